@@ -116,7 +116,10 @@ class VoteOracle:
 def build_tree(ctx, case):
     sizes = case['sizes']
     levels, names = level_names(sizes)
-    parents = symbolic_parents(ctx, sizes)
+    if case.get('parents'):
+        parents = {li + 1: list(p) for li, p in enumerate(case['parents'])}
+    else:
+        parents = symbolic_parents(ctx, sizes)
     if case.get('alias') and len(sizes) > 1:
         # node labels are only unique within a level: let one node carry
         # the label of a node of the level above (any branch)
